@@ -3,7 +3,8 @@
    Float comparisons are Coq primitive floats (IEEE binary64); the only axiom used is
    the standard library's FloatAxioms.leb_spec (and the primitive float/int types). *)
 From Coq Require Import Floats.
-From KS Require Import lib.Base model.Health proofs.HealthProofs.
+From Coq Require Import String.
+From KS Require Import lib.Base model.Health proofs.HealthProofs model.Dispatch gen.DispatchTable.
 Open Scope Z_scope.
 
 (* higher average latency or error rate never gives a better rating -- for EVERY
@@ -73,6 +74,15 @@ Theorem C25_gate_code_fetch : forall e,
   (pe_allowed e = true -> fetch_partition e = PReject (bp_code (pe_code e))).
 Proof. exact fetch_gate. Qed.
 Print Assumptions C25_gate_code_fetch.
+
+(* the guard order the gate model assumes (ACL -> etcd -> lease -> S3 health before
+   getPartitionLog for Produce; ACL -> S3 health before getPartitionLog for Fetch) is the
+   one in the source: gen/DispatchTable.v is regenerated from cmd/broker/main.go on every
+   run and these two rows are compared with the expected ones by vm_compute *)
+Theorem C25_gate_in_source :
+  row_ok dispatch_table "Produce" = true /\ row_ok dispatch_table "Fetch" = true.
+Proof. exact gate_rows_in_source. Qed.
+Print Assumptions C25_gate_in_source.
 
 (* non-vacuity: with the default thresholds 1 error in 5 operations (1/5 against the
    literal 0.2) IS degraded, 3 in 5 is unavailable, an old error leaves the window, the
